@@ -308,7 +308,7 @@ func (w *world) evalStep(g int, st Step) (string, string) {
 	if wantStatus == 0 {
 		wantStatus = 200
 	}
-	if isRoute && st.Beh.Kind == "status" && st.Beh.Status < 200 && st.Beh.Status != 101 {
+	if isRoute && (st.Beh.Kind == "status" || st.Beh.Kind == "redirect-loc") && st.Beh.Status < 200 && st.Beh.Status != 101 {
 		wantStatus = 200 // informational only: the final status is still the default
 	}
 	if r.attrs["status"] != strconv.Itoa(wantStatus) {
@@ -342,6 +342,8 @@ func behaviours(quick bool) []behaviour {
 		{Kind: "redirect-loc", Status: 301}, {Kind: "redirect-noloc", Status: 302}, {Kind: "redirect-loc", Status: 308}, {Kind: "redirect-noloc", Status: 399}}
 	for s := 100; s <= 999; s++ {
 		out = append(out, behaviour{Kind: "status", Status: s})
+		// a Location header next to every status (it belongs in the record for 3xx only)
+		out = append(out, behaviour{Kind: "redirect-loc", Status: s})
 	}
 	return out
 }
@@ -349,7 +351,7 @@ func behaviours(quick bool) []behaviour {
 func run(c *mc.Ctx, r *mc.Result) {
 	behs := behaviours(c.Quick())
 	few := []behaviour{{Kind: "status", Status: 204}, {Kind: "status", Status: 503}, {Kind: "nothing"}, {Kind: "redirect-loc", Status: 301}, {Kind: "flush-then-status", Status: 500}}
-	r.Bounds["space"] = fmt.Sprintf("%d global resolver configurations x ordered pairs (previous request kind, request kind) over %d kinds x %d remote addresses; the route handler sweeps %d behaviours (every status 100..999, implicit 200, nothing, redirects with/without Location, panic); requests are issued in sequence on one router with a deterministic context pool", nGlobals, nKinds, len(remotes), len(behs))
+	r.Bounds["space"] = fmt.Sprintf("%d global resolver configurations x ordered pairs (previous request kind, request kind) over %d kinds x %d remote addresses; the route handler sweeps %d behaviours (every status 100..999 with and without a Location header, implicit 200, nothing, redirects with/without Location, panic); requests are issued in sequence on one router with a deterministic context pool", nGlobals, nKinds, len(remotes), len(behs))
 	idx := 0
 	for g := 0; g < nGlobals; g++ {
 		for prev := -1; prev < nKinds; prev++ {
